@@ -155,7 +155,7 @@ pub fn spec(id: &str) -> Option<PropSpec> {
             vec!["cur-blst"],
         )),
         "C14" => Some(base(
-            vec![cs(&CRYPT, "eg-tally", 1500, 20000, false), cs(&CRYPT, "eg-extremes", 104, 208, true), cs(&CRYPT, "eg-proof-tamper", 2400, 32000, false)],
+            vec![cs(&CRYPT, "eg-tally", 1500, 20000, false), cs(&CRYPT, "eg-extremes", 104, 208, true), cs(&CRYPT, "eg-proof-tamper", 2400, 32000, false), cs(&CRYPT, "eg-transcripts", 16, 64, true)],
             "cases = (group, number of voters, which ballots arrived in which order under loss/duplication/delay, fault-script length) with conservation oracle, threshold share subset; proof perturbation kind over (c1, c2, message_proof, blinder_proof, challenge, pk); non-trivial = sums of >1 ciphertext, runs with faults, all altered proofs",
             vec!["cur-blst"],
         )),
